@@ -420,4 +420,322 @@ theorem lccOneMinusN_eq (E : Ell ℝ) (t1 t2 x1 x2 den n : ℝ) (hfm : 0 < E.fm)
     _ = Dlog1p a2 a1 * (a2 - a1) / (den * (t2 - t1)) := by rw [hda]; field_simp
     _ = 1 - n := by rw [hW]; field_simp
 
+/-! ## the cone constant of the two-parallel `Init` for any ellipsoid on which `Deatanhe` is a divided difference -/
+
+/-- `Dasinh·(x − y) = arsinh x − arsinh y` -/
+theorem Dasinh_mul (x y : ℝ) : Dasinh x y (hyp x) (hyp y) * (x - y) = Real.arsinh x - Real.arsinh y := lcc_dpsi x y
+
+/-- the numerator of `n`: `D ln sec β` -/
+theorem lccNraw_num (fm t1 t2 : ℝ) (h12 : t1 ≠ t2) :
+    Dlog1p (RealLike.sq (fm * t2) / (1 + hyp (fm * t2))) (RealLike.sq (fm * t1) / (1 + hyp (fm * t1))) *
+        Dhyp (fm * t2) (fm * t1) (hyp (fm * t2)) (hyp (fm * t1)) * fm * (t2 - t1) =
+      Real.log (hyp (fm * t2)) - Real.log (hyp (fm * t1)) := by
+  have p1 := one_le_hyp (fm * t1); have p2 := one_le_hyp (fm * t2)
+  rw [sq_over_one_add_hyp, sq_over_one_add_hyp]
+  have hm := Dlog1p_mul (hyp (fm * t2) - 1) (hyp (fm * t1) - 1) (by linarith) (by linarith)
+  have hh := Dhyp_mul (fm * t2) (fm * t1)
+  have e1 : (1 : ℝ) + (hyp (fm * t2) - 1) = hyp (fm * t2) := by ring
+  have e2 : (1 : ℝ) + (hyp (fm * t1) - 1) = hyp (fm * t1) := by ring
+  rw [e1, e2] at hm
+  rw [← hm]
+  have : Dhyp (fm * t2) (fm * t1) (hyp (fm * t2)) (hyp (fm * t1)) * fm * (t2 - t1) =
+      Dhyp (fm * t2) (fm * t1) (hyp (fm * t2)) (hyp (fm * t1)) * (fm * t2 - fm * t1) := by ring
+  calc _ = Dlog1p (hyp (fm * t2) - 1) (hyp (fm * t1) - 1) *
+        (Dhyp (fm * t2) (fm * t1) (hyp (fm * t2)) (hyp (fm * t1)) * fm * (t2 - t1)) := by ring
+    _ = _ := by rw [this, hh]; ring_nf
+
+/-- **`n = num/den` of the two-parallel `Init`** in closed form: `den·Δ = ψ2 − ψ1` and `n·den·Δ = ln sec β2 − ln sec β1`,
+    `ψ = arsinh(tan φ) − ξ`, whenever `Deatanhe(sphi2, sphi1)` is the divided difference of `ξ = eatanhe(sin φ)` -/
+theorem lccNraw_closed (E : Ell ℝ) (t1 t2 x1 x2 : ℝ) (h12 : t1 ≠ t2)
+    (hDe : Deatanhe E.e2 E.es (t2 / hyp t2) (t1 / hyp t1) * (t2 / hyp t2 - t1 / hyp t1) = x2 - x1) :
+    let nd := lccNraw E (t1 / hyp t1) t1 (hyp t1) (E.fm * t1) (hyp (E.fm * t1)) (t2 / hyp t2) t2 (hyp t2) (E.fm * t2) (hyp (E.fm * t2))
+    nd.2 * (t2 - t1) = (Real.arsinh t2 - x2) - (Real.arsinh t1 - x1) ∧
+    (nd.2 ≠ 0 → nd.1 * nd.2 * (t2 - t1) = Real.log (hyp (E.fm * t2)) - Real.log (hyp (E.fm * t1))) := by
+  intro nd
+  have hΔ : t2 - t1 ≠ 0 := sub_ne_zero.mpr (Ne.symm h12)
+  have hden : nd.2 * (t2 - t1) = (Real.arsinh t2 - x2) - (Real.arsinh t1 - x1) := by
+    show (Dasinh t2 t1 (hyp t2) (hyp t1) - Deatanhe E.e2 E.es (t2 / hyp t2) (t1 / hyp t1) * Dsn t2 t1 (t2 / hyp t2) (t1 / hyp t1)) * (t2 - t1) = _
+    have h1 := Dasinh_mul t2 t1
+    have h2 := Dsn_mul t2 t1
+    calc _ = Dasinh t2 t1 (hyp t2) (hyp t1) * (t2 - t1) -
+          Deatanhe E.e2 E.es (t2 / hyp t2) (t1 / hyp t1) * (Dsn t2 t1 (t2 / hyp t2) (t1 / hyp t1) * (t2 - t1)) := by ring
+      _ = _ := by rw [h1, h2, hDe]; ring
+  refine ⟨hden, fun h0 => ?_⟩
+  have hnum := lccNraw_num E.fm t1 t2 h12
+  have e : nd.1 = Dlog1p (RealLike.sq (E.fm * t2) / (1 + hyp (E.fm * t2))) (RealLike.sq (E.fm * t1) / (1 + hyp (E.fm * t1))) *
+        Dhyp (E.fm * t2) (E.fm * t1) (hyp (E.fm * t2)) (hyp (E.fm * t1)) * E.fm / nd.2 := by
+    simp only [nd, lccNraw, one_real]
+  rw [e, ← hnum]
+  field_simp
+
+/-- **`nc` of the careful branch**: `lccNcCareful = √(max 0 (1 − n) · (1 + n))` for the `n`, `den` of `lccNraw` -/
+theorem lccNcCareful_eq (E : Ell ℝ) (t1 t2 x1 x2 : ℝ) (hfm : 0 < E.fm) (h12 : t1 ≠ t2)
+    (hDe1 : Deatanhe E.e2 E.es 1 (t1 / hyp t1) * (1 - t1 / hyp t1) = eatanhe 1 E.es - x1)
+    (hDe2 : Deatanhe E.e2 E.es 1 (t2 / hyp t2) * (1 - t2 / hyp t2) = eatanhe 1 E.es - x2)
+    (hDe12 : Deatanhe E.e2 E.es (t1 / hyp t1) (t2 / hyp t2) * (t1 / hyp t1 - t2 / hyp t2) = x1 - x2)
+    (hDe21 : Deatanhe E.e2 E.es (t2 / hyp t2) (t1 / hyp t1) * (t2 / hyp t2 - t1 / hyp t1) = x2 - x1)
+    (hψ : Real.arsinh t2 - x2 ≠ Real.arsinh t1 - x1) :
+    let nd := lccNraw E (t1 / hyp t1) t1 (hyp t1) (E.fm * t1) (hyp (E.fm * t1)) (t2 / hyp t2) t2 (hyp t2) (E.fm * t2) (hyp (E.fm * t2))
+    lccNcCareful E nd.1 nd.2
+        (t1 / hyp t1) t1 (hyp t1) (Real.sinh x1) (hyp (Real.sinh x1)) x1 (tchiR t1 x1) (hyp (tchiR t1 x1)) (E.fm * t1) (hyp (E.fm * t1))
+        (t2 / hyp t2) t2 (hyp t2) (Real.sinh x2) (hyp (Real.sinh x2)) x2 (tchiR t2 x2) (hyp (tchiR t2 x2)) (E.fm * t2) (hyp (E.fm * t2))
+      = Real.sqrt (max 0 (1 - nd.1) * (1 + nd.1)) := by
+  intro nd
+  have hΔ : t2 - t1 ≠ 0 := sub_ne_zero.mpr (Ne.symm h12)
+  obtain ⟨hden, hn⟩ := lccNraw_closed E t1 t2 x1 x2 h12 hDe21
+  have hden0 : nd.2 ≠ 0 := by
+    intro h
+    have h' : nd.2 * (t2 - t1) = 0 := by rw [h, zero_mul]
+    have : (Real.arsinh t2 - x2) - (Real.arsinh t1 - x1) = 0 := by
+      rw [← hden]; exact h'
+    apply hψ; linarith
+  have hden' : nd.2 * (t2 - t1) = Real.arsinh (tchiR t2 x2) - Real.arsinh (tchiR t1 x1) := by
+    rw [arsinh_tchiR, arsinh_tchiR]; exact hden
+  have h1 := lccOneMinusN_eq E t1 t2 x1 x2 nd.2 nd.1 hfm h12 hDe1 hDe2 hDe12 hden' hden0 (hn hden0)
+  unfold lccNcCareful
+  simp only [fmax_real, zero_real, one_real, sqrt_real]
+  rw [h1]
+
+/-! ## `AlbersEqualArea::Init`: `s`, `1 − s`, `C` -/
+
+/-- `sec φ = 1/cos φ` from a sine/cosine pair -/
+theorem hyp_tan (s c : ℝ) (hc : 0 < c) (hsc : s ^ 2 + c ^ 2 = 1) : hyp (s / c) = 1 / c := by
+  rw [hyp_real]
+  have : 1 + (s / c) ^ 2 = (1 / c) ^ 2 := by field_simp; linarith
+  rw [this, Real.sqrt_sq (by positivity)]
+
+theorem albRatio_eq (sphi cphi sxi cxi : ℝ) (hc : 0 < cphi) (hsc : sphi ^ 2 + cphi ^ 2 = 1) (hx : sxi ^ 2 + cxi ^ 2 = 1) (hcx : 0 < cxi) :
+    albRatio sphi cphi sxi cxi = (1 - sxi) / (1 - sphi) := by
+  have h1 : sphi < 1 := by nlinarith
+  have h1' : -1 < sphi := by nlinarith
+  have h2 : sxi < 1 := by nlinarith
+  have h2' : -1 < sxi := by nlinarith
+  unfold albRatio
+  simp only [leb_real, zero_real, one_real, sq_real]
+  by_cases h : sphi ≤ 0
+  · simp only [h, decide_true, if_true]
+  · simp only [h, decide_false, Bool.false_eq_true, if_false]
+    have e1 : (1 : ℝ) - sphi ≠ 0 := by linarith
+    have e2 : (1 : ℝ) + sxi ≠ 0 := by linarith
+    rw [div_eq_div_iff e2 e1]
+    have hcx2 : cxi ^ 2 = (1 - sxi) * (1 + sxi) := by linear_combination hx
+    have hc2 : cphi ^ 2 = (1 - sphi) * (1 + sphi) := by linear_combination hsc
+    rw [div_pow, hcx2, hc2]
+    have e3 : (1 : ℝ) + sphi ≠ 0 := by linarith
+    field_simp
+
+theorem albOneMinus_eq (sphi cphi : ℝ) (hsc : sphi ^ 2 + cphi ^ 2 = 1) (hc : 0 < cphi) : albOneMinus sphi cphi = 1 - sphi := by
+  have h1' : -1 < sphi := by nlinarith
+  unfold albOneMinus
+  simp only [leb_real, zero_real, one_real, sq_real]
+  by_cases h : sphi ≤ 0
+  · simp only [h, decide_true, if_true]
+  · simp only [h, decide_false, Bool.false_eq_true, if_false]
+    have e3 : (1 : ℝ) + sphi ≠ 0 := by linarith
+    rw [div_eq_iff e3]
+    linear_combination hsc
+/-- algebraic core of `s`, `1 − s`, `C` of `AlbersEqualArea::Init` -/
+theorem alb_core_algebra (e2 fm t1 t2 s1 s2 sx1 sx2 dA dsn dd A1 A2 AZ QZ : ℝ)
+    (he2m : 1 - e2 ≠ 0) (hQZ : QZ ≠ 0) (hQZd : QZ = 1 / (1 - e2) + AZ)
+    (hΔ : t2 - t1 ≠ 0) (hs12 : s2 - s1 ≠ 0)
+    (hw1 : 1 - e2 * s1 ^ 2 ≠ 0) (hw2 : 1 - e2 * s2 ^ 2 ≠ 0)
+    (hp1 : 1 + s1 ≠ 0) (hp2 : 1 + s2 ≠ 0) (hm1 : 1 - s1 ≠ 0) (hm2 : 1 - s2 ≠ 0)
+    (hscb1 : (1 + (fm * t1) ^ 2) * (1 - s1 ^ 2) = 1 - e2 * s1 ^ 2) (hscb2 : (1 + (fm * t2) ^ 2) * (1 - s2 ^ 2) = 1 - e2 * s2 ^ 2)
+    (hdsn : dsn * (t2 - t1) = s2 - s1) (hDA : dA * (s2 - s1) = A2 - A1)
+    (hsx1 : sx1 * QZ = s1 / (1 - e2 * s1 ^ 2) + A1) (hsx2 : sx2 * QZ = s2 / (1 - e2 * s2 ^ 2) + A2)
+    (hdd : dd * (s2 - s1) = (AZ - A2) / (1 - s2) - (AZ - A1) / (1 - s1)) :
+    let scb12 := 1 + (fm * t1) ^ 2
+    let scb22 := 1 + (fm * t2) ^ 2
+    let dtbet2 := fm * (fm * t1 + fm * t2)
+    let es1 := 1 - e2 * s1 ^ 2
+    let es2 := 1 - e2 * s2 ^ 2
+    let dsxi := ((1 + e2 * s1 * s2) / (es2 * es1) + dA) * dsn / (2 * (QZ / 2))
+    let den := (sx2 + sx1) * dtbet2 + (scb22 + scb12) * dsxi
+    let s := 2 * dtbet2 / den
+    let sm1 := -dsn *
+      (-((1 - sx2) / (1 - s2) + (1 - sx1) / (1 - s1)) * (1 + e2 * (s1 + s2 + s1 * s2)) / (1 + (s1 + s2 + s1 * s2))
+        + (scb22 * (1 - s2) + scb12 * (1 - s1)) *
+          (e2 * (1 + s1 + s2 + e2 * s1 * s2) / (es1 * es2) + (1 - e2) * dd) / ((1 - e2) * QZ)) / den
+    dsxi * (t2 - t1) = sx2 - sx1 ∧ den * (t2 - t1) = 2 * (scb22 * sx2 - scb12 * sx1) ∧
+      (scb22 * sx2 - scb12 * sx1 ≠ 0 → s = ((fm * t2) ^ 2 - (fm * t1) ^ 2) / (scb22 * sx2 - scb12 * sx1) ∧ sm1 = 1 - s) := by
+  intro scb12 scb22 dtbet2 es1 es2 dsxi den s sm1
+  have hdsxi : dsxi * (t2 - t1) = sx2 - sx1 := by
+    have h1 : ((1 + e2 * s1 * s2) / (es2 * es1) + dA) * (s2 - s1) = (sx2 - sx1) * QZ := by
+      have : (1 + e2 * s1 * s2) / (es2 * es1) * (s2 - s1) = s2 / es2 - s1 / es1 := by
+        simp only [es1, es2]; field_simp; ring
+      calc _ = (1 + e2 * s1 * s2) / (es2 * es1) * (s2 - s1) + dA * (s2 - s1) := by ring
+        _ = _ := by rw [this, hDA]; simp only [es1, es2]; linear_combination hsx1 - hsx2
+    calc dsxi * (t2 - t1) = ((1 + e2 * s1 * s2) / (es2 * es1) + dA) * (dsn * (t2 - t1)) / QZ := by
+          simp only [dsxi]; field_simp
+      _ = _ := by rw [hdsn, h1]; field_simp
+  have hdt : dtbet2 * (t2 - t1) = scb22 - scb12 := by simp only [dtbet2, scb22, scb12]; ring
+  have hden : den * (t2 - t1) = 2 * (scb22 * sx2 - scb12 * sx1) := by
+    calc den * (t2 - t1) = (sx2 + sx1) * (dtbet2 * (t2 - t1)) + (scb22 + scb12) * (dsxi * (t2 - t1)) := by simp only [den]; ring
+      _ = _ := by rw [hdt, hdsxi]; ring
+  refine ⟨hdsxi, hden, fun hne => ?_⟩
+  have hden0 : den ≠ 0 := by
+    intro h; rw [h, zero_mul] at hden
+    apply hne; linarith
+  have hs : s = ((fm * t2) ^ 2 - (fm * t1) ^ 2) / (scb22 * sx2 - scb12 * sx1) := by
+    simp only [s]
+    rw [div_eq_div_iff hden0 hne]
+    have : 2 * dtbet2 * (scb22 * sx2 - scb12 * sx1) * (t2 - t1) = ((fm * t2) ^ 2 - (fm * t1) ^ 2) * den * (t2 - t1) := by
+      calc _ = 2 * (dtbet2 * (t2 - t1)) * (scb22 * sx2 - scb12 * sx1) := by ring
+        _ = ((fm * t2) ^ 2 - (fm * t1) ^ 2) * (den * (t2 - t1)) := by rw [hdt, hden]; simp only [scb22, scb12]; ring
+        _ = _ := by ring
+    exact mul_right_cancel₀ hΔ this
+  refine ⟨hs, ?_⟩
+  -- the two factors F = scbet²(1 − sphi), R = (1 − sxi)/(1 − sphi) and their divided differences
+  set σ := s1 + s2 + s1 * s2 with hσ
+  have h1σ : 1 + σ = (1 + s1) * (1 + s2) := by rw [hσ]; ring
+  have h1σ0 : 1 + σ ≠ 0 := by rw [h1σ]; exact mul_ne_zero hp1 hp2
+  have hF1 : scb12 * (1 - s1) = es1 / (1 + s1) := by
+    rw [eq_div_iff hp1]; simp only [scb12, es1]; linear_combination hscb1
+  have hF2 : scb22 * (1 - s2) = es2 / (1 + s2) := by
+    rw [eq_div_iff hp2]; simp only [scb22, es2]; linear_combination hscb2
+  have hDF : scb22 * (1 - s2) - scb12 * (1 - s1) = -(1 + e2 * σ) / (1 + σ) * (s2 - s1) := by
+    rw [hF1, hF2, h1σ, hσ]; simp only [es1, es2]; field_simp; ring
+  have hR : ∀ (sx s A : ℝ), sx * QZ = s / (1 - e2 * s ^ 2) + A → 1 - e2 * s ^ 2 ≠ 0 → 1 - s ≠ 0 →
+      (1 - sx) / (1 - s) * QZ = (1 + e2 * s) / ((1 - e2) * (1 - e2 * s ^ 2)) + (AZ - A) / (1 - s) := by
+    intro sx s A hsx hw hm
+    have : (1 - sx) * QZ = 1 / (1 - e2) + AZ - (s / (1 - e2 * s ^ 2) + A) := by rw [← hsx, ← hQZd]; ring
+    calc (1 - sx) / (1 - s) * QZ = ((1 - sx) * QZ) / (1 - s) := by ring
+      _ = _ := by rw [this]; field_simp; ring
+  have hR1 := hR sx1 s1 A1 hsx1 hw1 hm1
+  have hR2 := hR sx2 s2 A2 hsx2 hw2 hm2
+  set R1 := (1 - sx1) / (1 - s1) with hR1d
+  set R2 := (1 - sx2) / (1 - s2) with hR2d
+  set DR := (e2 * (1 + s1 + s2 + e2 * s1 * s2) / (es1 * es2) + (1 - e2) * dd) / ((1 - e2) * QZ) with hDRd
+  have hDR : R2 - R1 = DR * (s2 - s1) := by
+    have e : (R2 - R1) * QZ = DR * (s2 - s1) * QZ := by
+      have : DR * (s2 - s1) * QZ = e2 * (1 + s1 + s2 + e2 * s1 * s2) / (es1 * es2) * (s2 - s1) / (1 - e2) + dd * (s2 - s1) := by
+        rw [hDRd]; field_simp
+      rw [this, hdd]
+      calc (R2 - R1) * QZ = R2 * QZ - R1 * QZ := by ring
+        _ = _ := by rw [hR1, hR2]; simp only [es1, es2]; field_simp; ring
+    exact mul_right_cancel₀ hQZ e
+  have hFR1 : scb12 * (1 - s1) * R1 = scb12 * (1 - sx1) := by rw [hR1d]; field_simp
+  have hFR2 : scb22 * (1 - s2) * R2 = scb22 * (1 - sx2) := by rw [hR2d]; field_simp
+  -- sm1·den·Δ = (1 − s)·den·Δ
+  have hdenΔ : den * (t2 - t1) ≠ 0 := mul_ne_zero hden0 hΔ
+  have hA : sm1 * (den * (t2 - t1)) = -2 * (scb22 * (1 - sx2) - scb12 * (1 - sx1)) := by
+    have e : sm1 * den = -dsn * (-(R2 + R1) * (1 + e2 * σ) / (1 + σ) + (scb22 * (1 - s2) + scb12 * (1 - s1)) * DR) := by
+      simp only [sm1]
+      rw [div_mul_cancel₀ _ hden0, hR1d, hR2d, hDRd, hσ]
+      ring
+    calc sm1 * (den * (t2 - t1)) = sm1 * den * (t2 - t1) := by ring
+      _ = -(dsn * (t2 - t1)) * (-(R2 + R1) * (1 + e2 * σ) / (1 + σ) + (scb22 * (1 - s2) + scb12 * (1 - s1)) * DR) := by rw [e]; ring
+      _ = -((R2 + R1) * (-(1 + e2 * σ) / (1 + σ) * (s2 - s1)) + (scb22 * (1 - s2) + scb12 * (1 - s1)) * (DR * (s2 - s1))) := by rw [hdsn]; ring
+      _ = -((R2 + R1) * (scb22 * (1 - s2) - scb12 * (1 - s1)) + (scb22 * (1 - s2) + scb12 * (1 - s1)) * (R2 - R1)) := by rw [← hDF, ← hDR]
+      _ = -2 * (scb22 * (1 - s2) * R2 - scb12 * (1 - s1) * R1) := by ring
+      _ = _ := by rw [hFR1, hFR2]
+  have hB : (1 - s) * (den * (t2 - t1)) = -2 * (scb22 * (1 - sx2) - scb12 * (1 - sx1)) := by
+    have e : s * den = 2 * dtbet2 := by simp only [s]; field_simp
+    calc (1 - s) * (den * (t2 - t1)) = den * (t2 - t1) - s * den * (t2 - t1) := by ring
+      _ = 2 * (scb22 * sx2 - scb12 * sx1) - 2 * (dtbet2 * (t2 - t1)) := by rw [hden, e]; ring
+      _ = _ := by rw [hdt]; ring
+  exact mul_right_cancel₀ hdenΔ (hA.trans hB.symm)
+
+/-- **`s`, `1 − s` and `C` of `AlbersEqualArea::Init`** (two distinct parallels given by sine/cosine pairs, `tan φ = s/c`).
+    `A1, A2, AZ` are `atanhee` at the two sines and at 1; `Datanhee(sphi2, sphi1)` is assumed to be their divided difference, `dd`
+    the second divided difference `(D(1, sphi2) − D(1, sphi1))/(sphi2 − sphi1)`, `D(1, x) = (AZ − A(x))/(1 − x)`, and the authalic
+    sines `sxi = txi/hyp txi` are `Q/QZ`, `Q(x) = x/(1 − e²x²) + A(x)` (`txif_closed`).  Then, with `scbet² = 1 + (fm tan φ)²`:
+    `s = (tbet2² − tbet1²)/(scbet2² sxi2 − scbet1² sxi1)`, `sm1 = 1 − s`,
+    `C = (scbet2² sxi2 − scbet1² sxi1)/(scbet2² scbet1² (sxi2 − sxi1))` — the expressions in the comments of the code. -/
+theorem albSC_closed (E : Ell ℝ) (s1 c1 s2 c2 txi1 txi2 dd A1 A2 AZ : ℝ)
+    (he2m : E.e2m ≠ 0) (hc1 : 0 < c1) (hc2 : 0 < c2) (hsc1 : s1 ^ 2 + c1 ^ 2 = 1) (hsc2 : s2 ^ 2 + c2 ^ 2 = 1)
+    (h12 : s1 / c1 ≠ s2 / c2) (hAZ : E.atanhee 1 = AZ) (hDA : E.Datanhee s2 s1 * (s2 - s1) = A2 - A1)
+    (hQZ : 1 / E.e2m + AZ ≠ 0) (hw1 : 1 - E.e2 * s1 ^ 2 ≠ 0) (hw2 : 1 - E.e2 * s2 ^ 2 ≠ 0)
+    (hx1 : txi1 / hyp txi1 * (1 / E.e2m + AZ) = s1 / (1 - E.e2 * s1 ^ 2) + A1)
+    (hx2 : txi2 / hyp txi2 * (1 / E.e2m + AZ) = s2 / (1 - E.e2 * s2 ^ 2) + A2)
+    (hdd : dd * (s2 - s1) = (AZ - A2) / (1 - s2) - (AZ - A1) / (1 - s1)) :
+    let r := albSC E s1 c1 (s1 / c1) s2 c2 (s2 / c2) txi1 txi2 dd
+    let scb12 := 1 + (E.fm * (s1 / c1)) ^ 2
+    let scb22 := 1 + (E.fm * (s2 / c2)) ^ 2
+    let sx1 := txi1 / hyp txi1
+    let sx2 := txi2 / hyp txi2
+    scb22 * sx2 - scb12 * sx1 ≠ 0 →
+      r.s = ((E.fm * (s2 / c2)) ^ 2 - (E.fm * (s1 / c1)) ^ 2) / (scb22 * sx2 - scb12 * sx1) ∧ r.sm1 = 1 - r.s ∧
+      (sx2 ≠ sx1 → r.C = (scb22 * sx2 - scb12 * sx1) / (scb22 * scb12 * (sx2 - sx1))) := by
+  intro r scb12 scb22 sx1 sx2 hne
+  have hΔ : s2 / c2 - s1 / c1 ≠ 0 := sub_ne_zero.mpr (Ne.symm h12)
+  have he2m' : E.e2m = 1 - E.e2 := by simp only [Ell.e2m, one_real]
+  have hfm2 : E.fm ^ 2 = 1 - E.e2 := by rw [e2_eq]; ring
+  have hh1 := hyp_tan s1 c1 hc1 hsc1
+  have hh2 := hyp_tan s2 c2 hc2 hsc2
+  have hs1' : s1 = (s1 / c1) / hyp (s1 / c1) := by rw [hh1]; field_simp
+  have hs2' : s2 = (s2 / c2) / hyp (s2 / c2) := by rw [hh2]; field_simp
+  have hdsn : Dsn (s2 / c2) (s1 / c1) s2 s1 * (s2 / c2 - s1 / c1) = s2 - s1 := by
+    have := Dsn_mul (s2 / c2) (s1 / c1)
+    rw [← hs1', ← hs2'] at this; exact this
+  have hs12 : s2 - s1 ≠ 0 := by
+    intro h; rw [h, mul_eq_zero] at hdsn
+    have hs : s1 = s2 := by linarith
+    -- equal sines with positive cosines: equal tangents
+    have hcc : c1 = c2 := by
+      have : c1 ^ 2 = c2 ^ 2 := by rw [hs] at hsc1; linarith
+      exact (pow_left_inj₀ hc1.le hc2.le (by norm_num)).mp this
+    apply h12; rw [hs, hcc]
+  have hm : ∀ s c : ℝ, 0 < c → s ^ 2 + c ^ 2 = 1 → 1 - s ≠ 0 ∧ 1 + s ≠ 0 := by
+    intro s c hc h
+    constructor
+    · have : s < 1 := by nlinarith
+      linarith
+    · have : -1 < s := by nlinarith
+      linarith
+  obtain ⟨hm1, hp1⟩ := hm s1 c1 hc1 hsc1
+  obtain ⟨hm2, hp2⟩ := hm s2 c2 hc2 hsc2
+  have hscb : ∀ s c : ℝ, 0 < c → s ^ 2 + c ^ 2 = 1 → (1 + (E.fm * (s / c)) ^ 2) * (1 - s ^ 2) = 1 - E.e2 * s ^ 2 := by
+    intro s c hc h
+    have hc2' : 1 - s ^ 2 = c ^ 2 := by linarith
+    rw [hc2', mul_pow, hfm2]
+    field_simp
+    linear_combination h
+  have hcx : ∀ txi : ℝ, (txi / hyp txi) ^ 2 + (1 / hyp txi) ^ 2 = 1 ∧ 0 < 1 / hyp txi := by
+    intro txi
+    have h := hyp_sq txi; have p := hyp_pos txi
+    constructor
+    · field_simp; linarith
+    · positivity
+  have hR1 := albRatio_eq s1 c1 (txi1 / hyp txi1) (1 / hyp txi1) hc1 hsc1 (hcx txi1).1 (hcx txi1).2
+  have hR2 := albRatio_eq s2 c2 (txi2 / hyp txi2) (1 / hyp txi2) hc2 hsc2 (hcx txi2).1 (hcx txi2).2
+  have hO1 := albOneMinus_eq s1 c1 hsc1 hc1
+  have hO2 := albOneMinus_eq s2 c2 hsc2 hc2
+  rw [he2m'] at he2m hQZ hx1 hx2
+  have hqZ : E.qZ = (1 - E.e2) * (1 / (1 - E.e2) + AZ) := by
+    simp only [Ell.qZ, one_real, hAZ]; rw [he2m']; field_simp
+  have hqx : E.qx = (1 / (1 - E.e2) + AZ) / 2 := by
+    simp only [Ell.qx, two_real]; rw [hqZ, he2m']; field_simp
+  have core := alb_core_algebra E.e2 E.fm (s1 / c1) (s2 / c2) s1 s2 (txi1 / hyp txi1) (txi2 / hyp txi2) (E.Datanhee s2 s1)
+    (Dsn (s2 / c2) (s1 / c1) s2 s1) dd A1 A2 AZ
+    (1 / (1 - E.e2) + AZ) he2m hQZ rfl hΔ hs12 hw1 hw2 hp1 hp2 hm1 hm2
+    (hscb s1 c1 hc1 hsc1) (hscb s2 c2 hc2 hsc2) hdsn hDA hx1 hx2 hdd
+  obtain ⟨hdsxi, hden, hrest⟩ := core
+  obtain ⟨hs, hsm1⟩ := hrest hne
+  -- the model function is the expression of the algebraic lemma
+  have hcxi : ∀ txi : ℝ, txi * (1 / hyp txi) = txi / hyp txi := fun txi => by ring
+  have p1 : (0 : ℝ) < scb12 := by simp only [scb12]; positivity
+  have p2 : (0 : ℝ) < scb22 := by simp only [scb22]; positivity
+  have keyC : ∀ den dsxi : ℝ, dsxi * (s2 / c2 - s1 / c1) = sx2 - sx1 → den * (s2 / c2 - s1 / c1) = 2 * (scb22 * sx2 - scb12 * sx1) →
+      sx2 ≠ sx1 → den / (2 * scb12 * scb22 * dsxi) = (scb22 * sx2 - scb12 * sx1) / (scb22 * scb12 * (sx2 - sx1)) := by
+    intro den dsxi h1 h2 hsx
+    have hsx' : sx2 - sx1 ≠ 0 := sub_ne_zero.mpr hsx
+    have hd1 : dsxi ≠ 0 := by
+      intro h; rw [h, zero_mul] at h1; exact hsx' h1.symm
+    have hdd1 : (2 : ℝ) * scb12 * scb22 * dsxi ≠ 0 := by positivity
+    have hdd2 : scb22 * scb12 * (sx2 - sx1) ≠ 0 := mul_ne_zero (by positivity) hsx'
+    rw [div_eq_div_iff hdd1 hdd2]
+    apply mul_right_cancel₀ hΔ
+    linear_combination (scb22 * scb12 * (sx2 - sx1)) * h2 - (2 * scb12 * scb22 * (scb22 * sx2 - scb12 * sx1)) * h1
+  refine ⟨?_, ?_, fun hsx => ?_⟩
+  · simp only [r, albSC, sq_real, one_real, two_real]
+    rw [hcxi, hcxi, hqx]
+    exact hs
+  · simp only [r, albSC, sq_real, one_real, two_real]
+    rw [hcxi, hcxi, hR1, hR2, hO1, hO2, hqZ, hqx, he2m']
+    exact hsm1
+  · simp only [r, albSC, sq_real, one_real, two_real]
+    rw [hcxi, hcxi, hqx]
+    exact keyC _ _ hdsxi hden hsx
+
 end GeoVerif.Proofs.ConicInit
